@@ -214,6 +214,8 @@ class R:
                 out += self.for_(st, ind)
             elif k == "for2":
                 out += self.for2_(st, ind)
+            elif k == "ford":
+                out += self.ford_(st, ind)
             else:
                 raise ValueError(k)
         return out
@@ -233,6 +235,14 @@ class R:
         pad = "    " * ind
         i = self.var(st[1])
         return [pad + "for (%s = 0; %s < %d; %s++) {" % (i, i, st[2], i)] + self.block(st[3], ind + 1) + [pad + "}"]
+
+    FORD = "let %s = 0"
+
+    def ford_(self, st, ind):
+        """("ford", i, n, body): a counted loop whose counter is declared in the loop header"""
+        pad = "    " * ind
+        i = self.var(st[1])
+        return [pad + "for (%s; %s < %d; %s++) {" % (self.FORD % i, i, st[2], i)] + self.block(st[3], ind + 1) + [pad + "}"]
 
     def for2_(self, st, ind):
         """("for2", i, j, n, body): i counts up from 0, j down from n, while i < j; two initialisers and two updates in one header."""
@@ -274,6 +284,9 @@ class RPy(R):
     def for_(self, st, ind):
         pad = "    " * ind
         return [pad + "for %s in range(%d):" % (st[1], st[2])] + (self.block(st[3], ind + 1) or [pad + "    pass"])
+
+    def ford_(self, st, ind):
+        return self.for_(st, ind)
 
     def for2_(self, st, ind):
         pad = "    " * ind
@@ -333,6 +346,7 @@ class RTs(RJs):
 
 class RJava(R):
     name, ext, start = "java", ".java", "main0"
+    FORD = "int %s = 0"
 
     def lets(self, v, lit):
         return "String %s = %s;" % (v, lit)
@@ -358,6 +372,7 @@ class RJava(R):
 
 class RC(R):
     name, ext, start = "c", ".c", "main0"
+    FORD = "int %s = 0"
 
     def lets(self, v, lit):
         return "char *%s = %s;" % (v, lit)
@@ -409,6 +424,11 @@ class RGo(R):
         i = st[1]
         return [pad + "for %s = 0; %s < %d; %s++ {" % (i, i, st[2], i)] + self.block(st[3], ind + 1) + [pad + "}"]
 
+    def ford_(self, st, ind):
+        pad = "    " * ind
+        i = st[1]
+        return [pad + "for %s := 0; %s < %d; %s++ {" % (i, i, st[2], i)] + self.block(st[3], ind + 1) + [pad + "}"]
+
     def for2_(self, st, ind):
         pad = "    " * ind
         i, j = st[1], st[2]
@@ -429,6 +449,7 @@ class RGo(R):
 
 class RPhp(R):
     name, ext, start = "php", ".php", ""
+    FORD = "%s = 0"
 
     def var(self, v):
         return "$" + v
@@ -508,6 +529,23 @@ CORE_CONSTRUCTS = {
         ("for", "i1", 3, [("setf", "r", "a", ("bin", "+", ("f", "r", "a"), ("v", "i1"))),
                           ("if", ("cmp", "==", ("f", "r", "a"), ("v", "a")), [("setf", "r", "b", ("bin", "+", ("f", "r", "b"), ("n", 5)))], [])]),
         ("ret", ("bin", "+", ("bin", "*", ("f", "r", "a"), ("n", 10)), ("f", "r", "b")))])],
+    # two sibling loops that each declare the same counter in their header, in two functions one of which calls the other
+    "two_loops_same_counter": [
+        ("h0", ["p"], [("let", "t0", ("n", 0)),
+                       ("ford", "i", 2, [("set", "t0", ("bin", "+", ("v", "t0"), ("v", "i")))]),
+                       ("ford", "i", 3, [("set", "t0", ("bin", "+", ("v", "t0"), ("bin", "*", ("v", "i"), ("v", "p"))))]),
+                       ("ret", ("v", "t0"))]),
+        ("entry", ["a", "b"], [("let", "t0", ("n", 0)),
+                               ("ford", "i", 2, [("set", "t0", ("bin", "+", ("v", "t0"), ("call", "h0", [("v", "i")])))]),
+                               ("ford", "i", 3, [("set", "t0", ("bin", "+", ("v", "t0"), ("bin", "+", ("v", "i"), ("v", "a"))))]),
+                               ("out", ("v", "t0")),
+                               ("ret", ("bin", "+", ("v", "t0"), ("v", "b")))])],
+    # operands with side effects: the left operand is evaluated before the right one
+    "operand_order": [
+        ("pr", ["p"], [("out", ("v", "p")), ("ret", ("v", "p"))]),
+        ("entry", ["a", "b"], [("let", "t0", ("bin", "-", ("call", "pr", [("v", "a")]), ("call", "pr", [("v", "b")]))),
+                               ("let", "t1", ("bin", "+", ("call", "pr", [("n", 1)]), ("bin", "*", ("call", "pr", [("n", 2)]), ("call", "pr", [("n", 3)])))),
+                               ("ret", ("bin", "+", ("bin", "*", ("v", "t0"), ("n", 10)), ("v", "t1")))])],
     "arith": [("entry", ["a", "b"], [("ret", ("bin", "-", ("bin", "*", ("v", "a"), ("n", 3)), ("bin", "+", ("v", "b"), ("neg", ("v", "a")))))])],
     "if_else": [("entry", ["a", "b"], [("let", "t0", ("n", 0)), ("if", ("cmp", "<", ("v", "a"), ("v", "b")), [("set", "t0", ("n", 1))], [("set", "t0", ("n", 2))]),
                                        ("if", ("and", ("cmp", ">", ("v", "a"), ("n", 0)), ("not", ("cmp", "==", ("v", "b"), ("n", 1)))), [("set", "t0", ("bin", "+", ("v", "t0"), ("n", 10)))], []),
